@@ -32,8 +32,22 @@ def history(rng):
         return Map([(k, nest(d - 1)) for k in rng.sample(["k", "m", "z"], rng.randrange(1, 3))])
     a = nest(2)
     body = [Decl([(False, ["A"], a)])]
-    how = rng.randrange(4)
-    if how == 0:
+    how = rng.randrange(8)
+    path = None          # how the copy is reached through B when it is embedded in a larger value
+    if how == 4:
+        # a literal that embeds the variable: the declared value is a deep copy of the whole literal
+        body.append(Decl([(False, ["B"], Arr([Var("A"), Num(3)]))]))
+        path = Index(Var("B"), Num(1))
+    elif how == 5:
+        body.append(Decl([(False, ["B"], Map([("in", Var("A")), ("n", Num(1))]))]))
+        path = Index(Var("B"), Str("in"))
+    elif how == 6:
+        body.append(Decl([(False, ["B"], Arr([Arr([Var("A")]), Var("A")]))]))
+        path = Index(Index(Var("B"), Num(1)), Num(1)) if rng.random() < 0.5 else Index(Var("B"), Num(2))
+    elif how == 7:
+        body += [Decl([(False, ["B"], Num(0))]), ExprS(AssignVar("B", Arr([Var("A")])))]
+        path = Index(Var("B"), Num(1))
+    elif how == 0:
         body.append(Decl([(False, ["B"], Var("A"))]))
     elif how == 1:
         body += [Decl([(False, ["B"], Num(0))]), ExprS(AssignVar("B", Var("A")))]
@@ -47,6 +61,8 @@ def history(rng):
         tgt = Var(n)
         if how == 3 and n == "B":
             tgt = Index(Var("B"), Num(1))
+        if path is not None and n == "B":
+            tgt = path
         if a[0] == "EArr":
             k = rng.randrange(5)
             if k == 0:
